@@ -595,7 +595,7 @@ func ruleC09(prog *Program, rep *Report) {
 	rep.Explain(engineAExplanation)
 	rep.Explain("C09 decides the structural facts the reported position depends on: cursor argument of every error, cursor at buffer exhaustion, newline bookkeeping, rebasing of the newline offset between reader buffers, and use of one error constructor. Not covered: arithmetic of the column beyond these facts; BOM offset.")
 	results := exploreFrontEnds(prog, jsonFrontEnds, []bool{false, true}, false)
-	applyParseResults(rep, results, union(kindsPosition, map[string]bool{"accepts-dead": true, "rejects-live": true}), "A-errpos", 18)
+	applyParseResults(rep, results, union(kindsPosition, kindsPanic, map[string]bool{"accepts-dead": true, "rejects-live": true}), "A-errpos", 18) // an arm that slices past len(buf) compares stale bytes: the error, if any, is reported at another byte
 	ruleC09Extra(prog, rep)
 	if rep.Tier == "thorough" {
 		mutationSweep(prog, rep, union(kindsPosition, map[string]bool{"accepts-dead": true, "rejects-live": true}), sweepSize())
